@@ -64,7 +64,8 @@ STD_ENUMS = {
     'Option': ['None', 'Some'], 'Result': ['Ok', 'Err'], 'Poll': ['Ready', 'Pending'],
     'ControlFlow': ['Continue', 'Break'], 'Ordering': ['Less', 'Equal', 'Greater'],
     'Cow': ['Borrowed', 'Owned'], 'Entry': ['Occupied', 'Vacant'], 'Bound': ['Included', 'Excluded', 'Unbounded'],
-    'EitherOrBoth': ['Both', 'Left', 'Right'], 'Component': ['Prefix', 'RootDir', 'CurDir', 'ParentDir', 'Normal'], 'Either': ['Left', 'Right'], 'AssertKind': ['Eq', 'Ne', 'Match'],
+    'EitherOrBoth': ['Both', 'Left', 'Right'], 'Component': ['Prefix', 'RootDir', 'CurDir', 'ParentDir', 'Normal'],
+    'ErrorKind': ['NotFound', 'PermissionDenied', 'ConnectionRefused', 'ConnectionReset', 'HostUnreachable', 'NetworkUnreachable', 'ConnectionAborted', 'NotConnected', 'AddrInUse', 'AddrNotAvailable', 'NetworkDown', 'BrokenPipe', 'AlreadyExists', 'WouldBlock', 'NotADirectory', 'IsADirectory', 'DirectoryNotEmpty', 'ReadOnlyFilesystem', 'FilesystemLoop', 'StaleNetworkFileHandle', 'InvalidInput', 'InvalidData', 'TimedOut', 'WriteZero', 'StorageFull', 'NotSeekable', 'QuotaExceeded', 'FileTooLarge', 'ResourceBusy', 'ExecutableFileBusy', 'Deadlock', 'CrossesDevices', 'TooManyLinks', 'InvalidFilename', 'ArgumentListTooLong', 'Interrupted', 'Unsupported', 'UnexpectedEof', 'OutOfMemory', 'InProgress', 'Other', 'Uncategorized'], 'Either': ['Left', 'Right'], 'AssertKind': ['Eq', 'Ne', 'Match'],
 }
 ORDERING_DISCR = {'Less': -1, 'Equal': 0, 'Greater': 1}
 
@@ -476,7 +477,7 @@ class Engine:
         if m:
             head = m.group(1); fields = [self.operand(fr, x.split(': ', 1)[1]) for x in split_top(m.group(2))]
             if head.startswith('{coroutine@'):
-                co = Coro(strip_lifetimes(fn.ret), fields, head); co.env = self.env_stack[-1]; return co
+                co = Coro(self._coro_key(fn, head), fields, head); co.env = self.env_stack[-1]; return co
             if head.startswith('{'):
                 cl = Agg(fields, head); cl.env = self.env_stack[-1]; return cl
             path = strip_lifetimes(head)
@@ -488,7 +489,7 @@ class Engine:
         m = re.fullmatch(r'(\{coroutine@[^}]*\}|\{(?:async )?closure@[^}]*\})', s)
         if m:
             if s.startswith('{coroutine@'):
-                co = Coro(strip_lifetimes(fn.ret), [], s); co.env = self.env_stack[-1]; return co
+                co = Coro(self._coro_key(fn, s), [], s); co.env = self.env_stack[-1]; return co
             cl = Agg([], s); cl.env = self.env_stack[-1]; return cl
         # tuple-like constructor: Path::Variant(args) or Struct(args)
         m = None
@@ -512,6 +513,18 @@ class Engine:
             return Enum(re.sub(r'<.*', '', segs[-1]), [], last_seg(segs[-2]))
         if re.fullmatch(r'[\w:<>, &\[\];]+', s): return Agg([], type_key(path))
         raise EngineError('rvalue ' + s)
+
+    def _coro_key(self, fn, head):
+        """key of the pre-transform coroutine body for a `{coroutine@span (#n)}` aggregate: the async fn's return type, or the
+        `{async block@span}` / `{async closure body@span}` type for async blocks (async_trait methods)"""
+        ret = strip_lifetimes(fn.ret)
+        if ret in self.ix.coro: return ret
+        m = re.match(r'\{coroutine@([^ }]+(?: [\d:]+)?)', head)
+        if m:
+            span = m.group(1)
+            for k in self.ix.coro:
+                if k.startswith('{async') and span in k: return k
+        return ret
 
     def ty_of(self, fn, opnd):
         s = opnd.strip()
